@@ -90,6 +90,18 @@ func cachingHandler(router proxy.Router, logger *apexlog.Logger, conf *config.Co
 		defer m.ReportAndClose(time.Now())
 		defer sentry.Recover()
 
+		// restart_on_redirect follows redirects inside rrrouter: never visit a URL twice for one
+		// client request and give up after a bounded number of hops.
+		const maxRedirectHops = 10
+		followed := map[string]bool{or.Host + or.URL.RequestURI(): true}
+		mayFollow := func(u *url.URL) bool {
+			k := u.Host + u.RequestURI()
+			if followed[k] || len(followed) > maxRedirectHops {
+				return false
+			}
+			followed[k] = true
+			return true
+		}
 		var cachingFunc func(*http.ResponseWriter, *http.Request, *url.URL, *http.Header, *proxy.RoutingFlavors, bool)
 		cachingFunc = func(w *http.ResponseWriter, r *http.Request, overrideURL *url.URL, alwaysInclude *http.Header, frf *proxy.RoutingFlavors, skipRevalidate bool) {
 			logctx := logger.WithFields(apexlog.Fields{"url": r.URL, "func": "server.cachingHandler"})
@@ -121,6 +133,10 @@ func cachingHandler(router proxy.Router, logger *apexlog.Logger, conf *config.Co
 					rr.URL = redirectedUrl
 					rr.Host = redirectedUrl.Host
 					rr.RequestURI = reqres.RedirectedURL.RequestURI()
+					if !mayFollow(rr.URL) {
+						writeError(*w, usererror.CreateError(508, "Loop detected"))
+						return
+					}
 					cachingFunc(w, rr, nil, alwaysInclude, &rf, false)
 					return
 				}
@@ -206,6 +222,10 @@ func cachingHandler(router proxy.Router, logger *apexlog.Logger, conf *config.Co
 						writeError(*w, err)
 						return
 					}
+					if !mayFollow(rr.URL) {
+						writeError(*w, usererror.CreateError(508, "Loop detected"))
+						return
+					}
 					cachingFunc(w, rr, rr.URL, nil, &rf, false)
 					return
 				}
@@ -279,6 +299,10 @@ func cachingHandler(router proxy.Router, logger *apexlog.Logger, conf *config.Co
 					rr, err := requestWithRedirect(r, cr.Metadata.RedirectedURL)
 					if err != nil {
 						writeError(*w, err)
+						return
+					}
+					if !mayFollow(rr.URL) {
+						writeError(*w, usererror.CreateError(508, "Loop detected"))
 						return
 					}
 					cachingFunc(w, rr, rr.URL, alwaysInclude, &rf, false)
@@ -432,12 +456,16 @@ func cachingHandler(router proxy.Router, logger *apexlog.Logger, conf *config.Co
 						redirectedUrl.Scheme = reqres.OriginalURL.Scheme
 						cr.Writer.SetRedirectedURL(redirectedUrl)
 						if rf.RestartOnRedirect {
-							cr.Writer.SetClientWritesDisabled()
-							clientWritesDisabled = true
 							rr := r.Clone(r.Context())
 							rr.URL = redirectedUrl
 							rr.Host = redirectedUrl.Host
 							rr.RequestURI = reqres.RedirectedURL.RequestURI()
+							if !mayFollow(rr.URL) {
+								writeError(*w, usererror.CreateError(508, "Loop detected"))
+								return
+							}
+							cr.Writer.SetClientWritesDisabled()
+							clientWritesDisabled = true
 							cachingFunc(w, rr, rr.URL, alwaysInclude, &rf, false)
 						}
 					}
